@@ -349,7 +349,7 @@ func (rep *Report) finish() int {
 	}
 	ev := map[string]interface{}{
 		"property_id": rep.Property, "tier": rep.Tier, "seed": rep.Seed, "level": "proof",
-		"coverage": cov, "assumptions": rep.Assumptions, "wall_s": time.Since(rep.start).Seconds(), "violations": violations,
+		"coverage": cov, "assumptions": append([]string{}, rep.Assumptions...), "wall_s": time.Since(rep.start).Seconds(), "violations": violations,
 	}
 	os.MkdirAll(evidenceDir, 0o755)
 	b, _ := json.MarshalIndent(ev, "", " ")
